@@ -1,13 +1,13 @@
 #!/bin/sh
-# run every claimed check in the thorough tier once, end to end, keep a copy of each evidence file under evidence_thorough/
+# run every claimed check in the thorough tier once, end to end; the evidence of these runs goes to evidence_thorough/
+# (SYMX_EVIDENCE_DIR), so that evidence/ keeps what the registered quick commands wrote last
 cd /verif
 mkdir -p evidence_thorough
 JOBS=${JOBS:-8}
 for P in ${PROPS:-$(cat tools/claimed.txt)}; do
   S=$(date +%s)
-  ./check $P --tier thorough --jobs $JOBS > /tmp/run_thorough_$P.log 2>&1
+  SYMX_EVIDENCE_DIR=/verif/evidence_thorough ./check $P --tier thorough --jobs $JOBS > /tmp/run_thorough_$P.log 2>&1
   RC=$?
   E=$(date +%s)
-  cp evidence/$P.json evidence_thorough/$P.json 2>/dev/null
   echo "$P rc=$RC $((E-S))s $(grep -c VIOLATION /tmp/run_thorough_$P.log) violations, $(grep -c KNOWN-FINDING /tmp/run_thorough_$P.log) known, $(grep -c inconclusive /tmp/run_thorough_$P.log) inconclusive, $(grep -c HARNESS-ERROR /tmp/run_thorough_$P.log) errors" >> /tmp/run_thorough_summary.log
 done
